@@ -1,5 +1,6 @@
 import CantoVerif.Spec.Epochs
 import CantoVerif.Proofs.InflationBlock
+import CantoVerif.Proofs.InflationMonitors
 import Mathlib.Tactic.Linarith
 import Mathlib.Tactic.Ring
 /-!
@@ -393,6 +394,70 @@ theorem c13_sample_monitors_model {s s' : State} {p : Params} {x epp b : Nat} {r
     | ok w =>
       simp only [Bool.not_true, Bool.false_or, Bool.or_eq_true, decide_eq_true_eq]
       right; exact provision_antitone_run hv h1
+
+/-- **provision_integral**: the formula always yields a whole number of base units (its last step multiplies by
+`10^18` exactly), so in every state the code itself produces `⌊provision⌋ = provision`: truncation only matters for
+a provision written by other means (the correspondence run injects such states on purpose) -/
+theorem provision_integral (p : Params) (x epp b : Nat) : S18 ∣ provisionN p x epp b := by
+  unfold provisionN scaleN
+  rw [mulN_ofInt]
+  exact Dvd.intro_left _ rfl
+
+open Spec in
+/-- the block-level C13 monitors hold on every successful block transition of the model; `period_count` from a
+state satisfying the counting invariant -/
+theorem c13_block_monitors_model (hE : EnvOK env) {s s' : State} {now h : Int} {log : List Call}
+    (hnd : (s.infos.map (·.id)).Nodup) (hstep : step env s (.block now h) = .ok (s', .block log)) :
+    let t : Tr := { env := env, pre := s, op := .block now h, ok := true, resp := .block log, post := s', logKnown := true, negative := false }
+    (CountInv s → c13_period_count t = true) ∧ c13_period_step t = true ∧ c13_provision_boundary t = true ∧ c13_nonneg t = true := by
+  intro t
+  refine ⟨?_, ?_, ?_, rfl⟩
+  · intro hI
+    have hI' := countInv_block hE hI hstep
+    simp only [c13_period_count, onBlock, t, Bool.not_true, Bool.false_or, Bool.or_eq_true, beq_iff_eq]
+    right; exact hI'.period
+  · simp only [c13_period_step, t, Bool.not_true, Bool.false_or, Bool.or_eq_true, Bool.and_eq_true, beq_iff_eq]
+    rcases block_summary hE hnd hstep t rfl rfl with ⟨hen, htk, n, M⟩ | ⟨_, _, hsame⟩ | ⟨_, _, hskip⟩ | ⟨_, _, hsame⟩
+    · cases hpp : periodPassed n s.infl.epp s.infl.period s.infl.skipped with
+      | true =>
+        right
+        exact ⟨(M.boundary.1 hpp).1, by simp only [minting]; rw [hen]; exact htk⟩
+      | false => left; exact (M.boundary.2 hpp).1
+    · left; rw [hsame]
+    · left; rw [hskip]
+    · left; rw [hsame]
+  · simp only [c13_provision_boundary, t, Bool.not_true, Bool.false_or]
+    rcases block_summary hE hnd hstep t rfl rfl with ⟨hen, htk, n, M⟩ | ⟨_, _, hsame⟩ | ⟨_, _, hskip⟩ | ⟨_, _, hsame⟩
+    · cases hpp : periodPassed n s.infl.epp s.infl.period s.infl.skipped with
+      | true =>
+        obtain ⟨hp, ratio, hr, hv, _⟩ := M.boundary.1 hpp
+        have : (s'.infl.period == s.infl.period) = false := by rw [hp]; simp
+        simp only [this, Bool.false_eq_true, if_false, hr, beq_iff_eq]
+        rw [hv, hp]
+      | false =>
+        obtain ⟨hp, hv⟩ := M.boundary.2 hpp
+        simp [hp, hv]
+    · simp [hsame]
+    · simp [hskip]
+    · simp [hsame]
+
+open Spec in
+/-- transfers and parameter updates never move the period or the provision -/
+theorem c13_other_monitors_model {s s' : State} {op : Op} {r : Resp} (hstep : step env s op = .ok (s', r))
+    (hop : ∀ now ht, op ≠ .block now ht) :
+    let t : Tr := { env := env, pre := s, op := op, ok := true, resp := r, post := s', logKnown := true, negative := false }
+    c13_period_step t = true ∧ c13_provision_boundary t = true := by
+  intro t
+  obtain ⟨h1, h2, _, _, _⟩ := other_ops_frame hstep hop
+  constructor
+  · simp only [c13_period_step, t, Bool.not_true, Bool.false_or]
+    cases op with
+    | block now ht => exact absurd rfl (hop now ht)
+    | send _ _ _ _ => simp [h1]
+    | updateParams _ _ => simp [h1]
+    | sample _ _ _ _ => simp [h1]
+  · show c13_provision_boundary { env := env, pre := s, op := op, ok := true, resp := r, post := s', logKnown := true, negative := false } = true
+    simp [c13_provision_boundary, h1, h2]
 
 end Inflation
 end CV
